@@ -25,6 +25,7 @@ EXPLANATION = (
     'add_key per mode (independent: fresh generate_* values; shared: the private section as a whole; encrypted under the key derived from the new '
     'password), absence of caches keyed without the key material. Rules C06.R1-R6.'
     ' Added with the seeded-defect rounds: every emitted key carries the sealed private section, self.props is set by init / unlock only, deletion reachable only from the deleting commands, the loader skip whitelist, one listing row per record.'
+    ' Round 6: close() drops the key material on every path, list_snapshots stores a row for every loaded snapshot, complete pagination.'
 )
 NOT_DECIDED = 'the property over whole histories of several users (dynamic); strength of MAC / AEAD / KDF'
 TRUSTED = ['CPython ast', 'AEAD authenticity (a wrong user key makes decrypt raise)']
